@@ -15,7 +15,7 @@ THEOREMS = ['C10_' + n for n in (
     'noll_c_total code_numbers_are_published fringe_120_needs_n_le_19 noll_parity noll_monotone '
     'osa_j_injective noll_j_injective fringe_j_injective radial_kernel_is_poly radial_edge_one '
     'radial_orthogonal azimuthal_orthogonal std_noll_orthonormal norm_kernels_squared zernike_poly_linear '
-    'zernike_fit_recovers zernike_fit_linear zernike_fit_residual').split()]
+    'zernike_fit_recovers zernike_fit_recovers_pts zernike_fit_linear zernike_fit_residual').split()]
 COQ_TARGETS = ['Model/M_C10.vo', 'Spec/S_C10.vo']
 TRUSTED_BASE = BASE_TRUSTED + [
     'modelled, not verified: scipy.optimize.least_squares is the section hypothesis lstsq_min (returns a minimiser of the '
@@ -27,7 +27,7 @@ TRUSTED_BASE = BASE_TRUSTED + [
     'int() of a dyadic int expression and math.factorial are translated to Z.quot / a Z product (py2coq); '
     'valid for |values| < 2**52 and non-negative factorial arguments, exercised by the kernel correspondence',
 ]
-RULE = ('recovery cases include data scaled to 1e-11 / 1e-13 (homogeneity of the fit); index lists: the three _generate_indices outputs are enumerated completely (3 x 120 positions) against the model and '
+RULE = ('recovery: for each family and every N = 1..37 four points/terms classes M = N (boundary), N+1, 2N, >= 2N+10, points chosen by pivoted QR of an independent design matrix, cond <= 1e3 required (reported in the histogram); recovery cases include data scaled to 1e-11 / 1e-13 (homogeneity of the fit); index lists: the three _generate_indices outputs are enumerated completely (3 x 120 positions) against the model and '
         'against the published rule evaluated in Coq; kernels: every supported (n, m) of the three lists x seeded r in [0,1] '
         '(incl. 0 and 1), phi in [-pi, pi]; poly/objective/fit: seeded coefficient vectors of length 1..37 (and up to 120 for '
         'poly), sample sets of >= 2N+10 points uniform in the unit disk; lenses from tools/lensgen.simple_spec for ZernikeOPD. '
@@ -163,10 +163,14 @@ def oracle_linear(rng, trials=30):
         c1 = [rng.uniform(-1, 1) for _ in range(N)]
         c2 = [rng.uniform(-1, 1) for _ in range(N)]
         a, b = rng.uniform(-2, 2), rng.uniform(-2, 2)
+        if t % 3 == 0:                      # homogeneity: all coefficient vectors, also tiny multiples
+            a, b = rng.choice([1e-9, 1e-10, 1e-12]) * rng.choice([-1, 1]), 0.0
         r, phi = rng.random(), rng.uniform(-math.pi, math.pi)
         lhs = float(C([a * x + b * y for x, y in zip(c1, c2)]).poly(r, phi))
         rhs = a * float(C(c1).poly(r, phi)) + b * float(C(c2).poly(r, phi))
-        if not abs(lhs - rhs) <= 1e-9 * (1 + abs(lhs) + abs(rhs)):
+        # |Z_k| <= sqrt(2n+2) <= 6.33: rounding error of either side is below 1e-9 of this magnitude
+        mag = 6.4 * (abs(a) * sum(abs(v) for v in c1) + abs(b) * sum(abs(v) for v in c2))
+        if not abs(lhs - rhs) <= 1e-9 * mag:
             return {'kind': 'poly-not-linear', 'family': fam, 'call': f'{cls}(coeffs).poly(r, phi)', 'N': N, 'a': a, 'b': b,
                     'c1': c1, 'c2': c2, 'r': r, 'phi': phi, 'poly_of_combination': lhs, 'combination_of_poly': rhs}
     return None
@@ -191,10 +195,61 @@ def _safe_fit(x, y, z, fam, N):
         return np.zeros(0), None, f'{type(e).__name__}: {str(e)[:120]}'
 
 
-def fit_case(rng, fam, cls, N, scale=1.0, M=None):
-    """one exact-data fitting case on the real implementation"""
+def pub_basis(short, N, x, y):
+    """M x N design matrix of the first N terms of a family from the PUBLISHED definitions (own index list, own radial
+    polynomial, own normalisation) - independent of optiland; used to choose sample points and to report the
+    condition number that keeps the recovery tolerance honest (column signs do not matter for either)."""
+    r = np.sqrt(x * x + y * y)
+    t = np.arctan2(y, x)
+    cols = []
+    for (n, m) in pub_list(short, N):
+        a = abs(m)
+        R = np.zeros_like(r)
+        for k in range((n - a) // 2 + 1):
+            R = R + ((-1) ** k * math.factorial(n - k) /
+                     (math.factorial(k) * math.factorial((n + a) // 2 - k) * math.factorial((n - a) // 2 - k))) * r ** (n - 2 * k)
+        nrm = 1.0 if short == 'fringe' else math.sqrt((2 * n + 2) / (2 if m == 0 else 1))
+        cols.append(nrm * R * (np.cos(a * t) if m >= 0 else np.sin(a * t)))
+    return np.array(cols).T
+
+
+RATIO_CLASSES = ('M=N', 'M=N+1', 'M=2N', 'M>=2N+10')
+
+
+def ratio_points(rng, ratio, N):
+    return {'M=N': N, 'M=N+1': N + 1, 'M=2N': 2 * N}.get(ratio) or (2 * N + 10 + rng.randint(0, 30))
+
+
+def spread_points(rng, short, N, M):
+    """M >= N distinct points of the unit disk that are well spread FOR the first N terms: N of them are picked from a
+    random pool by column-pivoted QR of the (independent) design matrix, which keeps even the square case M == N well
+    conditioned; the other M - N are further pool points.  Returns x, y, cond(design)."""
+    from scipy.linalg import qr
+    pool = max(8 * N, 40, M)
+    x, y = _disk_points(rng, pool)
+    _, _, piv = qr(pub_basis(short, N, x, y).T, pivoting=True)
+    idx = [int(i) for i in piv[:N]]
+    rest = [i for i in range(pool) if i not in idx]
+    rng.shuffle(rest)
+    idx += rest[:M - N]
+    xs, ys = x[idx], y[idx]
+    return xs, ys, float(np.linalg.cond(pub_basis(short, N, xs, ys)))
+
+
+def fit_case(rng, fam, cls, N, scale=1.0, M=None, ratio=None):
+    """one exact-data fitting case on the real implementation; `ratio` picks the points/terms class (the recovery clause
+    is quantified over every number of points >= N, boundary included)"""
     zk = _zk()
     C = getattr(zk, cls)
+    short = {f: sh for f, _, sh in FAMS}[fam]
+    if ratio is not None:
+        M = ratio_points(rng, ratio, N)
+        x, y, cond_pub = spread_points(rng, short, N, M)
+        c0 = np.array([rng.uniform(0.3, 1) * rng.choice([-1, 1]) for _ in range(N)]) * scale
+        z = np.asarray(C(list(c0)).poly(np.sqrt(x ** 2 + y ** 2), np.arctan2(y, x)), dtype=float) * np.ones(M)
+        chat, fit, raised = _safe_fit(x, y, z, fam, N)
+        return {'family': fam, 'N': N, 'M': M, 'ratio': ratio, 'x': x, 'y': y, 'z': z, 'c0': c0, 'chat': chat, 'raised': raised,
+                'fit': fit, 'cond': cond_pub}
     M = M or (2 * N + 10 + rng.randint(0, 30))
     x, y = _disk_points(rng, M)
     c0 = np.array([rng.uniform(-1, 1) for _ in range(N)]) * scale
@@ -208,6 +263,7 @@ def _fit_witness(c, err):
     """witness of a failed recovery; `recovered_all_zero` + `data_max_abs` identify the known small-data class"""
     return {'kind': 'fit-does-not-recover', 'family': c['family'], 'call_site': 'ZernikeFit._fit',
             'call': f'ZernikeFit(x, y, z, "{c["family"]}", {c["N"]}).coeffs', 'N': c['N'], 'M': c['M'],
+            'points_terms_class': c.get('ratio') or ('M=N' if c['M'] == c['N'] else 'M>N'),
             'x': c['x'].tolist(), 'y': c['y'].tolist(), 'c0': c['c0'].tolist(), 'recovered': c['chat'].tolist(),
             'recovered_all_zero': bool(len(c['chat']) == c['N'] and not np.any(c['chat'])),
             'data_max_abs': float(np.max(np.abs(c['z']))) if c['z'].size else 0.0,
@@ -220,16 +276,21 @@ def _fit_err(c):
 
 
 def oracle_fit(rng, trials=12, tol=1e-6):
+    """exact-data recovery over the families x points/terms classes; a failure outside the small-data class is preferred"""
+    small = None
     for t in range(trials):
         fam, cls, short = FAMS[t % 3]
         N = rng.choice([1, 2, 3, 5, 8, 12, 22, 36, 37])
-        c = fit_case(rng, fam, cls, N, scale=rng.choice([1.0, 30.0, 1e-2, 1e-11]))
-        if c['cond'] > 1e6:
+        c = fit_case(rng, fam, cls, N, scale=rng.choice([1.0, 30.0, 1e-2, 1e-11]), ratio=RATIO_CLASSES[(t // 3) % 4])
+        if c['cond'] > 1e3:
             continue
         err = _fit_err(c)
         if not err <= tol:
-            return _fit_witness(c, err)
-    return None
+            w = _fit_witness(c, err)
+            if not (w['recovered_all_zero'] and w['data_max_abs'] < 1e-8):
+                return w
+            small = small or w
+    return small
 
 
 def oracle_fit_linear(rng, trials=6, tol=1e-6):
@@ -423,14 +484,16 @@ def check_fit(ctx):
     out_obj = {'name': 'objective_model_vs_code', 'n': 0, 'nontrivial': 0, 'samples': [], 'disagreements': []}
     out_rec = {'name': 'fit_recovers_exact_data', 'n': 0, 'nontrivial': 0, 'samples': [], 'disagreements': []}
     out_lin = {'name': 'fit_linear_in_data', 'n': 0, 'nontrivial': 0, 'samples': [], 'disagreements': []}
-    Ns = sorted(set([1, 2, 5, 12, 36, 37] + [rng.randint(1, 37) for _ in range(ctx.n(2, 31))])) if ctx.quick() else list(range(1, 38))
+    # every N from 1 up (all 37 values in both tiers: a fit costs ~10 ms), every points/terms class incl. the boundary M == N
+    Ns = list(range(1, 38))
     rec_cases, obj_lines, obj_cases = [], [], []
     for fam, cls, short in FAMS:
         for N in Ns:
-            c = fit_case(rng, fam, cls, N, scale=rng.choice([1.0, 1.0, 25.0, 1e-2]))
-            rec_cases.append(c)
+            for ratio in RATIO_CLASSES:
+                c = fit_case(rng, fam, cls, N, scale=rng.choice([1.0, 1.0, 25.0, 1e-2]), ratio=ratio)
+                rec_cases.append(c)
             if N in (5, 36):        # homogeneity: the same kind of data at a very small magnitude
-                rec_cases.append(fit_case(rng, fam, cls, N, scale=rng.choice([1e-11, 1e-13])))
+                rec_cases.append(fit_case(rng, fam, cls, N, scale=rng.choice([1e-11, 1e-13]), ratio='M>=2N+10'))
             if len(obj_cases) < ctx.n(9, 60) and N <= 12:
                 ct = [rng.uniform(-1, 1) for _ in range(N)]
                 M0 = min(c['M'], 12)
@@ -449,7 +512,7 @@ def check_fit(ctx):
     for c in rec_cases:
         sc = max(1e-300, float(np.max(np.abs(c['c0']))))
         ok_len = len(c['chat']) == c['N']
-        if c['cond'] > 1e6:
+        if c['cond'] > 1e3:
             rec_lines.append('true')            # hypothesis (well-spread points) not met: trivial case
         elif len(c['chat']) != c['N']:
             rec_lines.append('false')
@@ -492,14 +555,19 @@ def check_fit(ctx):
                 tgt['disagreements'].append(dict(lin_cases[i], kind='fit-not-linear-in-data', violates_property=True,
                                                  call='ZernikeFit(x, y, a*z1+b*z2, family, N).coeffs'))
     out_obj['nontrivial'] = len(obj_cases)
-    out_rec['nontrivial'] = sum(1 for c in rec_cases if c['cond'] <= 1e6 and np.count_nonzero(c['c0']) >= 1)
+    out_rec['nontrivial'] = sum(1 for c in rec_cases if c['cond'] <= 1e3 and np.count_nonzero(c['c0']) >= 1)
     out_lin['nontrivial'] = len(lin_cases)
     if obj_cases:
         out_obj['samples'].append({k: (v[:3] if isinstance(v, list) else v) for k, v in obj_cases[0].items()})
     c = rec_cases[-1]
     out_rec['samples'].append({'family': c['family'], 'N': c['N'], 'M': c['M'], 'c0': c['c0'][:4].tolist(),
                                'recovered': c['chat'][:4].tolist(), 'cond': c['cond']})
-    out_rec['histogram'] = {'N_values': sorted({c['N'] for c in rec_cases}), 'max_cond': max(c['cond'] for c in rec_cases)}
+    out_rec['histogram'] = {'N_values': sorted({c['N'] for c in rec_cases}), 'max_cond': max(c['cond'] for c in rec_cases),
+                            'points_terms_classes': {r: {'cases': sum(1 for c in rec_cases if c.get('ratio') == r),
+                                                         'well_conditioned': sum(1 for c in rec_cases if c.get('ratio') == r and c['cond'] <= 1e3),
+                                                         'max_cond': max([c['cond'] for c in rec_cases if c.get('ratio') == r] or [0.0])}
+                                                     for r in RATIO_CLASSES},
+                            'per_family': {f: sum(1 for c in rec_cases if c['family'] == f) for f, _, _ in FAMS}}
     if lin_cases:
         out_lin['samples'].append({k: (v[:3] if isinstance(v, list) else v) for k, v in lin_cases[0].items()})
     return [out_obj, out_rec, out_lin]
